@@ -29,7 +29,7 @@ func c11() {
 	}
 	var plans []plan
 	for rep := 0; rep < run.N(4, 60); rep++ {
-		for _, mode := range []string{"plain", "gosched", "migrate"} {
+		for _, mode := range []string{"plain", "gosched", "migrate", "busy"} {
 			for _, unpriv := range []bool{false, true} {
 				for _, nnp := range []bool{true, false} {
 					for _, fl := range []uint32{0, 1, 2, 3} {
@@ -49,7 +49,7 @@ func c11() {
 	distinct := map[string]bool{}
 	vlib.Parallel(len(plans), func(i int) {
 		pl := plans[i]
-		cc := &vlib.ChildCase{Policy: spec, Flags: pl.flags, NNP: pl.nnp, Unprivileged: pl.unpriv, Probes: []vlib.Probe{probe}, NNPCase: &vlib.NNPCase{Mode: pl.mode}}
+		cc := &vlib.ChildCase{Policy: spec, Flags: pl.flags, NNP: pl.nnp, Unprivileged: pl.unpriv, Probes: []vlib.Probe{probe}, NNPCase: &vlib.NNPCase{Mode: pl.mode, GoMaxProcs: []int{0, 1, 2, 4}[i%4], CallerLocked: i%5 == 4}}
 		desc := fmt.Sprintf("case %d: mode=%s unprivileged=%v NoNewPrivs=%v flags=%#x strace=%v", i, pl.mode, pl.unpriv, pl.nnp, pl.flags, pl.strace)
 		res, err := vlib.RunChild(bin, "nnp", cc, pl.strace, 60*time.Second)
 		if err != nil || res.TimedOut || res.Line("done") == nil {
@@ -72,7 +72,7 @@ func c11() {
 		ok, _ := l["ok"].(bool)
 		errText := fmt.Sprint(l["err"])
 		migrated, _ := l["migrated"].(bool)
-		if pl.mode == "migrate" {
+		if pl.mode == "migrate" && i%5 != 4 {
 			if jsonU64(l["hook_calls"]) == 0 {
 				run.Inconclusive("hook H3 was never reached: " + desc)
 				return
@@ -217,5 +217,5 @@ func c11() {
 		}
 	}
 	run.Finish(run.Counter("children"), int64(len(distinct)),
-		"one child per (schedule mode in {plain, Gosched storm, forced migration at hook H3}, privileged/uid 65534, NoNewPrivs on/off, flags 0..3), repeated; strace records which thread issued prctl(PR_SET_NO_NEW_PRIVS) and seccomp and in which order; /proc state of all tasks before/after; unprivileged loads must succeed iff NoNewPrivs was requested; distinct = (mode, privilege, nnp, flags, migrated) cells")
+		"one child per (schedule mode in {plain, Gosched storm, forced migration at hook H3, GOMAXPROCS+2 CPU-bound goroutines}, GOMAXPROCS 1/2/4/default, caller already locked or not, privileged/uid 65534, NoNewPrivs on/off, flags 0..3), repeated; strace records which thread issued prctl(PR_SET_NO_NEW_PRIVS) and seccomp and in which order; /proc state of all tasks before/after; unprivileged loads must succeed iff NoNewPrivs was requested; distinct = (mode, privilege, nnp, flags, migrated) cells")
 }
